@@ -18,6 +18,7 @@ type Env struct {
 	vars  map[string]Val
 	entry *Snapshot // entry of the function under verification (for fresh())
 	bound map[string]bool
+	oldVars map[string]Val // entry values of (reassigned) parameters, visible inside old()
 }
 
 type specErr string
@@ -99,6 +100,15 @@ func (e *Env) eval(ex Expr) Val {
 	case *EOld:
 		n := *e
 		n.inOld = true
+		if len(e.oldVars) > 0 {
+			n.vars = map[string]Val{}
+			for k, val := range e.vars {
+				n.vars[k] = val
+			}
+			for k, val := range e.oldVars {
+				n.vars[k] = val
+			}
+		}
 		return n.eval(v.X)
 	case *EUnary:
 		return e.unary(v)
@@ -106,8 +116,8 @@ func (e *Env) eval(ex Expr) Val {
 		return e.binary(v)
 	case *ECond:
 		c := e.eval(v.C)
-		a := e.eval(v.A)
-		b := e.eval(v.B)
+		a := asTerm(e.eval(v.A))
+		b := asTerm(e.eval(v.B))
 		if c.S != SBool || a.K != VTerm || b.K != VTerm {
 			e.fail("bad conditional %s", exprString(ex))
 		}
@@ -249,6 +259,14 @@ func (e *Env) unary(v *EUnary) Val {
 	return Val{}
 }
 
+// asTerm views a function constant / closure as the reference it evaluates to.
+func asTerm(v Val) Val {
+	if (v.K == VFunc || v.K == VClosure) && v.T != "" {
+		return Val{K: VTerm, T: v.T, S: SInt, Ty: v.Ty}
+	}
+	return v
+}
+
 func isNilVal(v Val) bool {
 	if v.Ty == nil {
 		return false
@@ -276,8 +294,8 @@ func (e *Env) binary(v *EBinary) Val {
 			return boolv(eq(a.T, b.T))
 		}
 	}
-	a := e.eval(v.X)
-	b := e.eval(v.Y)
+	a := asTerm(e.eval(v.X))
+	b := asTerm(e.eval(v.Y))
 	if a.K != VTerm || b.K != VTerm {
 		e.fail("operator %s on composite values in %s", v.Op, exprString(v))
 	}
@@ -367,11 +385,33 @@ func (x *Exec) fieldRead(heap func(name, esort string) string, base, tn string, 
 	return term(sel(heap(tn+"."+f.Name(), es), base), es, ft)
 }
 
+// isRefType: values of this type are object references (subject to the allocation-closure axiom)
+func isRefType(t types.Type) bool {
+	if t == nil {
+		return false
+	}
+	switch t.Underlying().(type) {
+	case *types.Pointer, *types.Map, *types.Chan:
+		return true
+	}
+	return false
+}
+
+func mapName(elem types.Type) string {
+	if isRefType(elem) {
+		return "map.ptr"
+	}
+	return "map." + sortOf(elem)
+}
+
 func memName(esort string, elem types.Type) string {
 	if elem != nil {
 		if b, ok := elem.Underlying().(*types.Basic); ok && (b.Kind() == types.Uint8 || b.Kind() == types.Int8) {
 			return "mem.byte"
 		}
+	}
+	if isRefType(elem) {
+		return "mem.ptr"
 	}
 	switch esort {
 	case SInt:
@@ -423,7 +463,7 @@ func (e *Env) index(base, idx Val, ex Expr) Val {
 		}
 		if m, ok := base.Ty.Underlying().(*types.Map); ok {
 			es := sortOf(m.Elem())
-			h := e.heap("map."+es, "(Array Int "+es+")")
+			h := e.heap(mapName(m.Elem()), "(Array Int "+es+")")
 			return term(sel(sel(h, base.T), idx.T), es, m.Elem())
 		}
 	}
@@ -540,7 +580,25 @@ func (e *Env) call(c *ECall) Val {
 		if a.S != SSlice {
 			e.fail("content() of non-slice")
 		}
+		if a.Ty != nil {
+			if sl, ok := a.Ty.Underlying().(*types.Slice); ok {
+				es := sortOf(sl.Elem())
+				as := "(Array Int " + es + ")"
+				return term(sel(e.heap(memName(es, sl.Elem()), as), app("sarr", a.T)), as, nil)
+			}
+		}
 		return term(sel(e.heap("mem.byte", "(Array Int Int)"), app("sarr", a.T)), "(Array Int Int)", nil)
+	case "seen":
+		// seen(k): the enclosing range-over-map loop has already delivered key k
+		it, ok := e.vars["$iter"]
+		if !ok {
+			e.fail("seen() outside a range-over-map loop")
+		}
+		return boolv(sel(sel(e.heap("iter.seen", "(Array Int Bool)"), it.T), arg(0).T))
+	case "has":
+		// has(m, k): key k is present in map m
+		m, k := arg(0), arg(1)
+		return boolv(sel(sel(e.heap("map.dom", "(Array Int Bool)"), m.T), k.T))
 	case "be16":
 		return intv(e.beValue(arg(0), arg(1).T, 2))
 	case "be32":
@@ -592,6 +650,25 @@ func (e *Env) call(c *ECall) Val {
 	case "max":
 		a, b := arg(0), arg(1)
 		return intv(ite(app(">=", a.T, b.T), a.T, b.T))
+	case "deref":
+		// deref(p): content of the variable a pointer-to-non-struct designates (e.g. *s.coll)
+		a := arg(0)
+		pt, ok := a.Ty.Underlying().(*types.Pointer)
+		if !ok {
+			e.fail("deref of non-pointer")
+		}
+		es := sortOf(pt.Elem())
+		return term(sel(e.heap("cell."+es, es), a.T), es, pt.Elem())
+	case "funcref":
+		// funcref("bytes.Compare"): the reference a function constant evaluates to
+		if len(c.Args) != 1 {
+			e.fail("funcref takes one string")
+		}
+		sv, ok := c.Args[0].(*EStr)
+		if !ok {
+			e.fail("funcref takes a string literal")
+		}
+		return intv(num(int64(e.x.v.funcID(sv.S))))
 	case "ref":
 		// the reference (address) of a struct-typed expression as Int
 		a := arg(0)
@@ -769,7 +846,7 @@ func (e *Env) evalTargets(list []string) (ts []target, err error) {
 func (x *Exec) arrayByName(s string) (string, string) {
 	if strings.HasPrefix(s, "mem.") {
 		switch s {
-		case "mem.byte", "mem.Int":
+		case "mem.byte", "mem.Int", "mem.ptr":
 			return s, "(Array Int Int)"
 		case "mem.Slice":
 			return s, "(Array Int Slice)"
@@ -791,6 +868,12 @@ func (x *Exec) arrayByName(s string) (string, string) {
 		return "", ""
 	}
 	if parts[0] == "map" {
+		if parts[1] == "dom" {
+			return s, "(Array Int Bool)"
+		}
+		if parts[1] == "ptr" {
+			return s, "(Array Int Int)"
+		}
 		return s, "(Array Int " + parts[1] + ")"
 	}
 	obj := x.v.pkg.Pkg.Scope().Lookup(parts[0])
